@@ -4,11 +4,18 @@
 
 package momentum
 
+// Median Price = ((Low + High) / 2); AO = 5-Period SMA - 34-Period SMA of the median price, at the same bar
+//@ stream medS(h stream, l stream)[j] = (h[j] + l[j]) / 2
+//@ stream aoS(h stream, l stream, Ps int, Pl int)[k] = smaS(medS(h, l), Ps)[k + Pl - Ps] - smaS(medS(h, l), Pl)[k]
 //@ func AwesomeOscillator.Compute
 //@ requires a.ShortSma.Period >= 1 && a.ShortSma.Period <= a.LongSma.Period && consumed(highs) == 0 && consumed(lows) == 0 && len(highs) == len(lows)
 //@ ensures[C02] len(result) == max(0, len(highs) - (a.IdlePeriod()))
 //@ ensures[C03] consumed(highs) == len(highs) && consumed(lows) == len(lows) && closed(result)
 //@ ensures[C04] forall kk :: 0 <= kk && kk < len(result) ==> hor(result, kk) <= max(hor(highs, kk + (a.IdlePeriod())), hor(lows, kk + (a.IdlePeriod())))
+//@ step[C01] "median" forall j :: 0 <= j && j < len(highs) ==> medianSplice[0][j] == medS(highs, lows)[j] && medianSplice[1][j] == medS(highs, lows)[j]
+//@ use psum_cong(medianSplice[0], medS(highs, lows), _)
+//@ use psum_cong(medianSplice[1], medS(highs, lows), _)
+//@ ensures[C01] "documented" forall k :: 0 <= k && k < len(result) ==> result[k] == aoS(highs, lows, a.ShortSma.Period, a.LongSma.Period)[k]
 
 //@ func ChaikinOscillator.Compute
 //@ requires c.ShortEma.Period >= 1 && c.ShortEma.Period <= c.LongEma.Period && consumed(highs) == 0 && consumed(lows) == 0 && consumed(closings) == 0 && consumed(volumes) == 0 && len(highs) == len(lows) && len(highs) == len(closings) && len(highs) == len(volumes)
@@ -16,6 +23,11 @@ package momentum
 //@ ensures[C03] consumed(highs) == len(highs) && consumed(lows) == len(lows) && consumed(closings) == len(closings) && consumed(volumes) == len(volumes) && closed(result0) && closed(result1)
 //@ ensures[C04] forall kk :: 0 <= kk && kk < len(result0) ==> hor(result0, kk) <= max(hor(highs, kk + (c.IdlePeriod())), max(hor(lows, kk + (c.IdlePeriod())), max(hor(closings, kk + (c.IdlePeriod())), hor(volumes, kk + (c.IdlePeriod())))))
 //@ ensures[C04] forall kk :: 0 <= kk && kk < len(result1) ==> hor(result1, kk) <= max(hor(highs, kk + (c.IdlePeriod())), max(hor(lows, kk + (c.IdlePeriod())), max(hor(closings, kk + (c.IdlePeriod())), hor(volumes, kk + (c.IdlePeriod())))))
+//@ step[C01] "ad" forall j :: 0 <= j && j < len(highs) ==> adSplice[0][j] == adS(highs, lows, closings, volumes)[j] && adSplice[1][j] == adS(highs, lows, closings, volumes)[j]
+//@ use ema_cong(adSplice[0], adS(highs, lows, closings, volumes), c.ShortEma.Period, emam(c.ShortEma), _)
+//@ use ema_cong(adSplice[1], adS(highs, lows, closings, volumes), c.LongEma.Period, emam(c.LongEma), _)
+//@ ensures[C01] "documented" forall k :: 0 <= k && k < len(result0) ==> result0[k] == emaS(adS(highs, lows, closings, volumes), c.ShortEma.Period, emam(c.ShortEma), k + c.LongEma.Period - c.ShortEma.Period) - emaS(adS(highs, lows, closings, volumes), c.LongEma.Period, emam(c.LongEma), k)
+//@ ensures[C01] "ad-aligned" forall k :: 0 <= k && k < len(result1) ==> result1[k] == adS(highs, lows, closings, volumes)[k + c.LongEma.Period - 1]
 
 // the lagging span is documented as the closing shifted LaggingPeriod back; all five outputs must obey the warm-up law
 //@ func IchimokuCloud.Compute
@@ -50,6 +62,9 @@ package momentum
 //@ ensures[C02] len(result) == max(0, len(openings) - (q.IdlePeriod()))
 //@ ensures[C03] consumed(openings) == len(openings) && consumed(closings) == len(closings) && closed(result)
 //@ ensures[C04] forall kk :: 0 <= kk && kk < len(result) ==> hor(result, kk) <= max(hor(openings, kk + (q.IdlePeriod())), hor(closings, kk + (q.IdlePeriod())))
+//@ step[C01] "difference" forall j :: 0 <= j && j < len(openings) ==> res(Subtract, 0)[j] == subS(closings, openings)[j]
+//@ use psum_cong(res(Subtract, 0), subS(closings, openings), _)
+//@ ensures[C01] "documented" forall k :: 0 <= k && k < len(result) ==> result[k] == smaS(subS(closings, openings), q.Sma.Period)[k]
 
 // RSI = 100 - 100 / (1 + RS), RS = Wilder average of the gains / Wilder average of the losses (documented formula)
 //@ stream gainS(c stream)[j] = (c[j+1] - c[j] > 0 ? c[j+1] - c[j] : 0)
